@@ -1,3 +1,8 @@
-import NexoVerif.Model.Sink
-import NexoVerif.Lemmas.SinkLemmas
+import NexoVerif.Props.C01
+import NexoVerif.Props.C07
+import NexoVerif.Props.C08
+import NexoVerif.Props.C09
+import NexoVerif.Props.C10
 import NexoVerif.Props.C17
+import NexoVerif.Props.C18
+import NexoVerif.Props.C20
